@@ -8,6 +8,21 @@ open XdsVerif.Middleware XdsVerif.Route XdsVerif.Pick
 
 abbrev PF : PickFacts := Generated.pick
 
+/-- **a matched route that selects no cluster fails the call** (it does not fall through to a later route): the route
+found by `matchRoute` is the first match whatever its cluster list is (`clusters_play_no_part_in_matching`), and with an
+empty list the routing step ends in a routing error for every draw -/
+theorem cluster_less_match_fails (F : PickFacts) (rx : String → String → Bool) (l : Listener) (named : String → Lk RouteCfg)
+    (grpc : Bool) (md : Meta) (inv : Invocation) (draw : Nat) (r : Route)
+    (hm : matchRoute rx (some l) (fun n => (named n).toOption) grpc md inv = .ok r) (hc : r.clusters = []) :
+    routeCall F rx (.val l) named grpc md inv draw = .err := by
+  simp [routeCall, hm, hc, pick]
+
+/-- whether a route matches a call depends on its match condition alone - not on its clusters, weights or timeout -/
+theorem clusters_play_no_part_in_matching (rx : String → String → Bool) (path : String) (md : Meta) (r : Route)
+    (cs : List (String × Nat)) (t : Nat) :
+    routeMatched rx path md { r with clusters := cs, timeoutMs := t } = routeMatched rx path md r := by
+  simp [routeMatched]
+
 /-- undecided destination, route found: tag = picked cluster, locked, timeout = route timeout, passed on exactly once -/
 theorem mw_decides_once (c : Call) (cl : String) (t : Nat) (h : c.tag = none) :
     middleware c (.ok cl t) = { call := ⟨some cl, true, t⟩, nextCalls := 1, err := none } := by
